@@ -209,3 +209,17 @@ func (f *fakeBlockStream) Send(r *old_faithful_grpc.BlockResponse) error {
 	f.sent = append(f.sent, r)
 	return nil
 }
+
+func minInt(a, b int) int {
+	if a < b {
+		return a
+	}
+	return b
+}
+
+func maxInt(a, b int) int {
+	if a > b {
+		return a
+	}
+	return b
+}
